@@ -68,22 +68,34 @@ def hygiene(prog, chk):
                     names = vals
     chk.ob({"surround", "inside", "margin"} <= set(names), "A14.containment-attrs", "remove-list", b.where(rb, rt.get("line")), "remove_attrs is given surround, inside and margin", f"remove_attrs list is {names}")
     oks = [x for x, i, s in b.all_stmts() if "lhs" in s and s["lhs"][0] == 0 and not s["lhs"][1] and s["rv"].get("variant") == "Ok"]
-    # the early 'nothing to do' return: dominated by both is_none() tests being true
-    from sa import discharge as D
-    early = []
-    late = []
-    for x in oks:
-        conds = D.dom_conditions(b, x)
-        n_none = len([1 for kind, payload, truth in conds if kind == "call" and payload[0] == "is_none" and truth])
-        (early if n_none >= 2 else late).append(x)
-    ok = bool(late) and all(b.dominates(rb, x) for x in late) and len(early) == 1
+    # a successful exit that can be taken while `surround` or `inside` is present passes remove_attrs first.  Decided by
+    # reachability under an assumption about the two get_attr() results, whichever way their presence is tested.
+    gets = {}
+    for (gb, gt, gc) in b.call_sites(R.path_endswith("SvgElement::get_attr")):
+        k = _lit(b, gt, 1)
+        if k in ("surround", "inside"):
+            gets.setdefault(k, []).append(gb)
+    if set(gets) != {"surround", "inside"} or not oks:
+        chk.undecided("A14.containment-attrs", "must-remove", b.where(rb, rt.get("line")), f"get_attr(\"surround\") / get_attr(\"inside\") or the Ok exits of handle_containment not found (found {sorted(gets)}, {len(oks)} exits)")
+        return
+
+    def under(sur, ins):
+        a = {bb: sur for bb in gets["surround"]}
+        a.update({bb: ins for bb in gets["inside"]})
+        return R.option_assumption(b, a)
+
+    if R.may_reach(b, oks, under(1, 1)) or not R.may_reach(b, oks, under(0, 0), avoid={rb}):
+        # sanity of the decider: both present is an error, neither present returns early (nothing to remove)
+        chk.undecided("A14.containment-attrs", "must-remove", b.where(rb, rt.get("line")), "the presence tests on surround / inside are not in a form the rule understands")
+        return
+    leak = [name for name, (sv, iv) in (("surround", (1, 0)), ("inside", (0, 1))) if R.may_reach(b, oks, under(sv, iv), avoid={rb})]
     chk.ob(
-        ok,
+        not leak,
         "A14.containment-attrs",
         "must-remove",
         b.where(rb, rt.get("line")),
-        f"every successful exit of handle_containment except the 'neither present' return ({len(early)}) passes remove_attrs ({len(late)} exit(s))",
-        f"a successful exit of handle_containment skips remove_attrs (early exits: {len(early)}, late exits not dominated: {[b.where(x) for x in late if not b.dominates(rb, x)]}): surround/inside/margin would leak into the output",
+        "every successful exit of handle_containment that can be taken with surround or inside present passes remove_attrs",
+        f"a successful exit of handle_containment skips remove_attrs when {leak} is present: surround/inside/margin would leak into the output",
     )
 
 
@@ -118,8 +130,30 @@ def wiring(prog, chk):
         e = sorted(_callees(n.get("else")))
         got.append((t, e))
     want = [(["get_element_bbox"], ["inscribed_bbox"]), (["union"], ["intersection"]), (["expand_trbl_length"], ["shrink_trbl_length"])]
+    # decided on the control-flow graph (helpers spliced in): some branch on the surround flag has the first call on its
+    # true side only and the second on its false side only - whether it is written as if/else, a match guard or in a helper
+    flag_sw = []
+    for x in sorted(b.reachable):
+        t = b.term(x)
+        if t["k"] == "switch" and op_place(t["op"]) is not None:
+            fl = R.origin_local(b, t["op"])
+            if fl is not None and b.local_name(fl) == "is_surround":
+                tt, ft = R.switch_targets_bool(t)
+                if tt is not None and ft is not None:
+                    flag_sw.append((x, tt, ft))
+    if not flag_sw:
+        chk.undecided("A15.containment-wiring", "is_surround", b.where(), "no branch on a local named is_surround in handle_containment: the surround / inside flag is not recognisable")
     for w in want:
-        chk.ob(any(set(w[0]) <= set(g[0]) and set(w[1]) <= set(g[1]) for g in got), "A15.containment-wiring", f"is_surround:{w[0][0]}/{w[1][0]}", b.where(), f"surround uses {w[0][0]}, inside uses {w[1][0]}", f"the is_surround branches are wired as {got}")
+        if not flag_sw:
+            break
+        ca = {bb for (bb, t, c) in b.call_sites(lambda c, n=w[0][0]: c.path.split("::")[-1] == n)}
+        cb = {bb for (bb, t, c) in b.call_sites(lambda c, n=w[1][0]: c.path.split("::")[-1] == n)}
+        ok = False
+        for (x, tt, ft) in flag_sw:
+            rt, rf = b.reach([tt], avoid={x}), b.reach([ft], avoid={x})
+            if ca and cb and (ca & rt) and not (ca & rf) and (cb & rf) and not (cb & rt):
+                ok = True
+        chk.ob(ok, "A15.containment-wiring", f"is_surround:{w[0][0]}/{w[1][0]}", b.where(), f"surround uses {w[0][0]}, inside uses {w[1][0]}", f"no branch on the surround flag separates {w[0][0]} (surround side) from {w[1][0]} (inside side); source-level branches: {got}")
     # position_from_bbox(&bb, !is_surround)
     ok = False
     for n in hirq.exprs(h["body"], "MethodCall"):
@@ -223,6 +257,19 @@ def accumulator(prog, chk):
             dst_local = dest
         ok = in_loop and src_local is not None and src_local == dst_local
         detail = f"receiver comes from `{f.local_name(src_local) if src_local is not None else None}`, result goes to `{f.local_name(dst_local) if dst_local is not None else None}`"
+    if not ok:
+        # the same fold written with an adapter: `iter.try_fold(first, |acc, bb| acc.intersect(&bb))` (also fold / reduce):
+        # the closure intersects its accumulator parameter with the next box and returns the result
+        for (bb, t, c) in f.call_sites(lambda c: c.decl_path in ("std::iter::Iterator::try_fold", "std::iter::Iterator::fold", "std::iter::Iterator::reduce")):
+            cid = R.closure_id_of_operand(f, t["args"][-1]) if t["args"] else None
+            cb = prog.bodies.get(cid) if cid is not None else None
+            if cb is None:
+                continue
+            for (b2, t2, c2) in cb.call_sites(R.path_is("svgdx::position::BoundingBox::intersect")):
+                acc = R.origin(cb, t2["args"][0], carriers={"branch": 0, "deref": 0})
+                if acc[0] == "arg" and acc[1] == 2 and t2["dest"][0] == 0 and not t2["dest"][1]:
+                    ok = True
+                    detail = f"{c.decl_path.split('::')[-1]}() with a closure that intersects its accumulator with each further box"
     chk.ob(ok, "A13.fold-accumulator", "BoundingBox::intersection", f.where(), "intersection() intersects each further box with the running result (the accumulator is both operand and destination)", "intersection() does not fold over a carried accumulator: " + detail)
 
 
@@ -235,7 +282,7 @@ def inscribed_for_placed_shape(prog, chk):
     chk.floor("A13.inscribed-shape", len(sites), 1, "inscribed_bbox call in handle_containment")
     for (bb, t, c) in sites:
         o = R.origin(b, t["args"][1], carriers=dict(R.CARRIERS, as_str=0, deref=0, as_ref=0)) if len(t["args"]) > 1 else ("?",)
-        ok = o[0] == "field" and o[1][0] == 1 and [str(z) for z in o[1][1] if z != "*"] == [".name"]
+        ok = o[0] == "field" and (o[1][0] == 1 or R.origin_local(b, {"c": [o[1][0], []]}) == 1) and [str(z) for z in o[1][1] if z != "*"] == [".name"]
         chk.ob(ok, "A13.inscribed-shape", "handle_containment", b.where(bb, t.get("line")), "inscribed_bbox is asked for the shape of the element being placed (self.name)", f"inscribed_bbox is asked for a shape other than the placed element's own ({o[0]}): a rect placed inside circles is fitted into the area meant for another shape and sticks out")
 
 
